@@ -31,7 +31,7 @@ const (
 func TestMain(m *testing.M) {
 	slog.SetDefault(slog.New(slog.DiscardHandler))
 	evid.Main(m, "C19", "fault_enumeration",
-		"rapid-generated fakedb databases (1-3 named graphs incl. names that need path escaping, <= 12 entities in total, ids with gaps and interleaved between graphs, property values of every JSON shape incl. keys the scrubber rewrites) x compression {none,gzip,zstd} x batch size and shard size drawn from {1,2,3,count-1,count,count+1,count/2,1000} x scrub {none, full}. Per case ONE uninterrupted dump is run with hook H2 active; the output directory is captured before EVERY file-system mutation (fsStep site) = what a kill -9 there leaves; torn variants (file empty / half written) are derived for every write-type step; in addition the dump is re-run with a database error at EVERY read transaction and at EVERY delivered record, with a context cancellation at EVERY fsStep, and with a failing file-system operation at every checkpoint/manifest write and every rename. Every distinct resulting directory state S is judged: (I0) every fragment the checkpoint records is on disk with the recorded digest, and a directory holding fragments holds a checkpoint or a manifest; (I1) manifest.json present => the dump is complete and loadable; (I2) Dump(Resume=true) on a copy of S either fails and leaves the recorded fragments byte-identical or succeeds with a dump equal to the uninterrupted one (fast path: byte-identical; otherwise the full C18 oracle: manifest recomputed from the files, Load into an empty database, every entity exactly once) with no checkpoint and no *.tmp left; (I3) resume with a changed codec / zstd level / batch / shard / scrub / salt / driver / target list, with a source whose counts changed in a graph the checkpoint has counted, or with a planted extra file (five places) must fail and leave the recorded fragments intact. The resume of every state is itself captured at every fsStep (and, at selected states in quick / every state in thorough, re-run with database errors, cancellations and file-system errors), and the resulting states are judged in the same way until no new state appears (crash depth unbounded, states memoised by content). Evidence counts crash points. Non-trivial = the crash state's checkpoint shows a current phase with >= 1 committed fragment and >= 1 fragment still to be published; distinct = (kind, site, occurrence, chain of earlier crashes, configuration = codec/scrub/batch/shard/graph sizes).",
+		"rapid-generated fakedb databases (1-3 named graphs incl. names that need path escaping, <= 12 entities in total, ids with gaps and interleaved between graphs, property values of every JSON shape incl. keys the scrubber rewrites) x compression {none,gzip,zstd} x batch size and shard size drawn from {1,2,3,count-1,count,count+1,count/2,1000} x scrub {none, full}. Per case ONE uninterrupted dump is run with hook H2 active; the output directory is captured before EVERY file-system mutation (fsStep site) = what a kill -9 there leaves; torn variants (file empty / half written) are derived for every write-type step; in addition the dump is re-run with a database error at EVERY read transaction and at EVERY delivered record, with a context cancellation at EVERY fsStep, and with a failing file-system operation at every checkpoint/manifest write and every rename. Every distinct resulting directory state S is judged: (I0) every fragment the checkpoint records is on disk with the recorded digest, and a directory holding fragments holds a checkpoint or a manifest; (I1) manifest.json present => the dump is complete and loadable; (I2) Dump(Resume=true) on a copy of S either fails and leaves the recorded fragments byte-identical or succeeds with a dump equal to the uninterrupted one (fast path: byte-identical; otherwise the full C18 oracle: manifest recomputed from the files, Load into an empty database, every entity exactly once) with no checkpoint and no *.tmp left; (I3) resume with a changed codec / zstd level / batch / shard / scrub / salt / driver / target list, with a source whose counts changed in a graph the checkpoint has counted, or with a planted extra file (six places) must fail and leave the recorded fragments intact. The resume of every state is itself captured at every fsStep (and, at selected states in quick / every state in thorough, re-run with database errors, cancellations and file-system errors), and the resulting states are judged in the same way until no new state appears (crash depth unbounded, states memoised by content). Evidence counts crash points. Non-trivial = the crash state's checkpoint shows a current phase with >= 1 committed fragment and >= 1 fragment still to be published; distinct = (kind, site, occurrence, chain of earlier crashes, configuration = codec/scrub/batch/shard/graph sizes).",
 		"the file system applies operations in program order and what has been written survives a process kill (no fsync / power-loss modelling); rename, mkdir and unlink are atomic; a write may be torn at any byte (modelled: empty and half-written)",
 		"fakedb stands in for a DAWGS driver; the source database is quiescent during dump and resume except where the check changes it on purpose",
 		"'the source changed' is judged for graphs whose counts the checkpoint has recorded (completed or current); only count-changing modifications are in scope",
@@ -743,7 +743,7 @@ func (x *explorer) variants(s state, k *ckpt) []variant {
 		}
 	}
 	// planted files the checkpoint does not account for
-	plants := []string{"stray.txt", "graphs/zz-stray/nodes-000001.jsonl"}
+	plants := []string{"stray.txt", ".DS_Store", "graphs/zz-stray/nodes-000001.jsonl"}
 	for _, e := range s.entries {
 		if e.Dir && strings.HasPrefix(e.Path, "graphs/") && strings.Count(e.Path, "/") == 1 {
 			plants = append(plants, e.Path+"/zz-stray.jsonl")
@@ -962,7 +962,7 @@ func explore(c Case) (evid.Info, error) {
 		if v.resume.err != nil && v.resume.final.hash != it.st.hash {
 			queue = append(queue, item{st: v.resume.final, kind: "exit", site: "resume-refused", depth: it.depth + 1, chain: it.chain + " > exit"})
 		}
-		if (evid.R.Thorough() || v.idx%5 == c.Pick) && (v.hasCk && !v.hasMan) {
+		if (evid.R.Thorough() || v.idx%25 == c.Pick*5) && (v.hasCk && !v.hasMan) {
 			st := it.st
 			more, err := x.faultedRuns(&st, v.resume, it.depth+1, it.chain)
 			if err != nil {
@@ -983,6 +983,9 @@ func explore(c Case) (evid.Info, error) {
 	if len(unsupported) > 0 {
 		info.Skip = "fakedb unsupported: " + unsupported[0]
 		return info, nil
+	}
+	if os.Getenv("C19_DEBUG") != "" {
+		fmt.Printf("case %s entities=%d base_steps=%d points=%d states=%d completed=%d refused=%d slow=%d dirs=%d\n", c.config(), c.entityCount(), len(base.steps), x.points, x.nStates, x.completed, x.refused, x.slowPath, x.seq)
 	}
 	evid.R.AddExtraCount("crash_points", x.points)
 	evid.R.AddExtraCount("distinct_directory_states", x.nStates)
@@ -1008,5 +1011,9 @@ func explore(c Case) (evid.Info, error) {
 
 func TestC19Enumerate(t *testing.T) {
 	evid.R.Extra("exhaustive_crash_points_per_case", true)
-	evid.Prop(t, "enumerate", evid.R.N(60, 120), genCase, oracle)
+	n := evid.R.N(24, 25)
+	if v, err := strconv.Atoi(os.Getenv("C19_N")); err == nil && v > 0 {
+		n = v // development aid
+	}
+	evid.Prop(t, "enumerate", n, genCase, oracle)
 }
